@@ -1,6 +1,6 @@
 (* C19 -- Convenience accessors and coap-message views agree with raw message state. *)
 From CoapV Require Import Base Header Packet UintOpt Utf8 Numbers TypedOpt Accessors Suite06 Suite19
-  PacketOps proofs.PEnc proofs.P19.
+  PacketOps proofs.PEnc proofs.P19 proofs.P19b.
 
 Theorem C19_method : forall p m, get_method (set_method p m) = m /\
   token (set_method p m) = token p /\ opts (set_method p m) = opts p /\ payload (set_method p m) = payload p /\
@@ -34,6 +34,19 @@ Theorem C19_path : forall p s, forallb utf8_valid (path_segments s) = true ->
   hdr p' = hdr p /\ token p' = token p /\ payload p' = payload p.
 Proof. exact path_roundtrip. Qed.
 Print Assumptions C19_path.
+
+(* every valid path string has valid segments (byte 47 never occurs inside a multi-byte sequence), so the round
+   trip above holds for EVERY valid string *)
+Theorem C19_valid_string_segments : forall s, utf8_valid s = true -> forallb utf8_valid (path_segments s) = true.
+Proof. exact segments_valid. Qed.
+Print Assumptions C19_valid_string_segments.
+Theorem C19_path_valid_string : forall p s, utf8_valid s = true ->
+  let p' := set_path p s in
+  get_path p' = strip_slash s /\ get_path_as_vec p' = Ok (path_segments s) /\
+  (forall k', k' <> OPT_URI_PATH -> get_option p' k' = get_option p k') /\
+  hdr p' = hdr p /\ token p' = token p /\ payload p' = payload p.
+Proof. intros p s H. destruct (C19_path p s (segments_valid s H)) as (_ & R). exact R. Qed.
+Print Assumptions C19_path_valid_string.
 
 Theorem C19_path_join : forall s, join_slash (path_segments s) = strip_slash s.
 Proof. exact path_join. Qed.
